@@ -99,6 +99,48 @@ pub fn sym_suffix<const CAP: usize>(max: usize) {
     kani::cover!(!r && lb > la, "needle longer than haystack");
 }
 
+/// Both operands are windows of ONE buffer (they may alias or overlap, in
+/// particular start at the same address with different lengths).
+#[cfg(kani)]
+pub fn sym_alias<const CAP: usize>() {
+    let a = Buf::<CAP>::any();
+    let (oa, ob, la, lb): (usize, usize, usize, usize) =
+        (kani::any(), kani::any(), kani::any(), kani::any());
+    kani::assume(oa <= CAP && ob <= CAP && la <= CAP - oa && lb <= CAP - ob);
+    let x = &a.0[oa..oa + la];
+    let y = &a.0[ob..ob + lb];
+    let j: usize = kani::any();
+    let r = is_equal(x, y);
+    if r {
+        assert!(la == lb, "oracle: is_equal true for different lengths");
+        if j < la {
+            assert!(x[j] == y[j], "oracle: is_equal true but bytes differ");
+        }
+    } else if la == lb {
+        assert!(oa != ob, "oracle: is_equal false for the very same slice");
+    }
+    let rp = is_prefix(x, y);
+    if rp {
+        assert!(lb <= la, "oracle: is_prefix true for longer needle");
+        if j < lb {
+            assert!(x[j] == y[j], "oracle: is_prefix true but bytes differ");
+        }
+    } else if oa == ob {
+        assert!(lb > la, "oracle: is_prefix false for a prefix starting at the same address");
+    }
+    let rs = is_suffix(x, y);
+    if rs {
+        assert!(lb <= la, "oracle: is_suffix true for longer needle");
+        if j < lb {
+            assert!(x[la - lb + j] == y[j], "oracle: is_suffix true but bytes differ");
+        }
+    } else if oa + la == ob + lb {
+        assert!(lb > la, "oracle: is_suffix false for a suffix ending at the same address");
+    }
+    kani::cover!(oa == ob && la != lb, "same start address, different lengths");
+    kani::cover!(oa != ob && r && la > 2, "equal overlapping windows");
+}
+
 /// Exact-size operands (any read past either operand leaves its object).
 #[cfg(kani)]
 pub fn exact<const LA: usize, const LB: usize>() {
@@ -164,16 +206,17 @@ pub fn raw<const L: usize>() {
     kani::cover!(r && n == L, "equal at full length");
 }
 
-inst!(c18_is_equal, [props=C18+C05+C14 tier=quick cfg=x86std+generic t=900 role=is_equal], 34, sym_equal::<39>(32));
-inst!(c18_is_prefix, [props=C18+C05+C14 tier=quick cfg=x86std t=900 role=is_prefix], 26, sym_prefix::<31>(24));
-inst!(c18_is_suffix, [props=C18+C05+C14 tier=quick cfg=x86std t=900 role=is_suffix], 26, sym_suffix::<31>(24));
+inst!(c18_is_equal, [props=C18+C05 xprops=C14 tier=quick cfg=x86std+generic t=900 role=is_equal], 34, sym_equal::<39>(32));
+inst!(c18_is_prefix, [props=C18 xprops=C05+C14 tier=quick cfg=x86std t=900 role=is_prefix], 26, sym_prefix::<31>(24));
+inst!(c18_is_suffix, [props=C18 xprops=C05+C14 tier=quick cfg=x86std t=900 role=is_suffix], 26, sym_suffix::<31>(24));
+inst!(c18_alias_12, [props=C18+C14 tier=quick cfg=x86std t=900 role=aliasing-operands], 14, sym_alias::<12>());
 inst!(c18_raw_19, [props=C18+C05+C14 tier=quick cfg=x86std t=900 role=is_equal_raw], 21, raw::<19>());
 inst!(c18_exact_7_7, [props=C18+C05 tier=quick cfg=x86std t=600 role=exact-operands], 9, exact::<7, 7>());
 inst!(c18_exact_6_3, [props=C18+C05 tier=quick cfg=x86std t=600 role=exact-operands], 9, exact::<6, 3>());
 inst!(c18_exact_3_5, [props=C18+C05 tier=quick cfg=x86std t=600 role=exact-operands], 9, exact::<3, 5>());
 inst!(c18_exact_0_0, [props=C18+C05 tier=quick cfg=x86std t=600 role=exact-operands], 3, exact::<0, 0>());
 
-inst!(c18_is_equal_64, [props=C18+C05+C14 tier=thorough cfg=x86std t=1800 role=is_equal], 66, sym_equal::<71>(64));
-inst!(c18_is_prefix_64, [props=C18+C05+C14 tier=thorough cfg=x86std t=1800 role=is_prefix], 66, sym_prefix::<71>(64));
-inst!(c18_is_suffix_64, [props=C18+C05+C14 tier=thorough cfg=x86std t=1800 role=is_suffix], 66, sym_suffix::<71>(64));
-inst!(c18_raw_67, [props=C18+C05+C14 tier=thorough cfg=x86std t=1800 role=is_equal_raw], 69, raw::<67>());
+inst!(c18_is_equal_64, [props=C18 xprops=C05+C14 tier=thorough cfg=x86std t=1800 role=is_equal], 66, sym_equal::<71>(64));
+inst!(c18_is_prefix_64, [props=C18 xprops=C05+C14 tier=thorough cfg=x86std t=1800 role=is_prefix], 66, sym_prefix::<71>(64));
+inst!(c18_is_suffix_64, [props=C18 xprops=C05+C14 tier=thorough cfg=x86std t=1800 role=is_suffix], 66, sym_suffix::<71>(64));
+inst!(c18_raw_67, [props=C18 xprops=C05+C14 tier=thorough cfg=x86std t=1800 role=is_equal_raw], 69, raw::<67>());
